@@ -6,7 +6,7 @@ them); a finding may narrow this with Finding.detail['props'].
 
 PROPS = {
     'C01': {
-        'rules': ['R09', 'R07', 'R08', 'R13', 'R01', 'R28'],
+        'rules': ['R09', 'R07', 'R08', 'R13', 'R01', 'R28', 'R29'],
         'decided': 'support captured as the dual of exactly the given constraints after a reset; '
                    'every robust constraint lowered with its own or the default set; le_to_rc '
                    'consumes every part of the support (rows, sense, bound code, SOC, exp, LMI); '
@@ -14,7 +14,7 @@ PROPS = {
         'not_decided': 'signs and indices of the multiplier rows, i.e. feasibility itself',
     },
     'C03': {
-        'rules': ['R08', 'R09', 'R01', 'R07', 'R27'],
+        'rules': ['R08', 'R09', 'R01', 'R07', 'R27', 'R29'],
         'decided': 'per-constraint ambiguity set survives splits; set selection (own, default, '
                    'else raise); shared pro/exp/sup models reset; mix_support consumes every '
                    'cone list of the probability and expectation supports',
@@ -27,7 +27,7 @@ PROPS = {
         'not_decided': 'everything numeric',
     },
     'C06': {
-        'rules': ['R05', 'R25', 'R28'],
+        'rules': ['R05', 'R06', 'R25', 'R28'],
         'decided': 'every accepted atom / constraint class / objective form has a lowering branch '
                    'in some layer, no shadowed branch, unknown types raise; no constructor field '
                    'of an accepted expression is dropped on the way to its lowering',
@@ -66,7 +66,7 @@ PROPS = {
         'not_decided': 'numerical agreement of optima, solver status semantics',
     },
     'C12': {
-        'rules': ['R17', 'R18', 'R25', 'R27'],
+        'rules': ['R17', 'R18', 'R25', 'R27', 'R06'],
         'decided': 'read-back guards; sense applied exactly once each way; evaluator branch laws',
         'not_decided': 'index arithmetic of DecVar.get / rule_var, scenario labelling',
     },
